@@ -106,6 +106,28 @@ def run(tier):
             i += 1
         rep.case(("t", t))
     rep.traces += len(calls)
+    # a field at the end of a short line carries the line end: whitespace-only texts are blank fields for every caller
+    for t in [" \n", "\n", "\t", "   \r\n", " \t ", "\n ", "     \n"]:
+        for f in ("float", "int"):
+            fortran.check_call(rep, fff, f, t, "blank", "", "whitespace")
+        rep.case(("ws", t))
+    # the read-function tables hand the same readers to every real / integer format letter
+    table = fff.fortran_read_function
+    sample = rng.sample(texts, min(len(texts), 3000 if quick else 30000)) + ["0.3D06", "0.3D 06", "1.234-105", "1.5+03", " 12 3", "****", "   "]
+    for letter in sorted(table):
+        want = {"d": fff.fortran_read_int, "f": fff.fortran_read_float, "e": fff.fortran_read_float, "g": fff.fortran_read_float}.get(letter)
+        if want is None:
+            continue
+        for t in sample:
+            try:
+                a, b = table[letter](t), want(t)
+            except Exception as ex:
+                rep.violation("table:%s:raises" % letter, "never_raises", {"format_letter": letter, "text": t, "error": repr(ex)})
+                break
+            rep.case(None)
+            if not (fortran.same(a, b) or (a is None and b is None)):
+                rep.violation("table:%s" % letter, "fortran_meaning", {"format_letter": letter, "text": t, "table_reader": repr(a), "reader": repr(b)})
+                break
     for t in texts[:3] + texts[-3:]:
         rep.sample({"text": t, "fortran_float": repr(fff.fortran_float(t)), "fortran_int": repr(fff.fortran_int(t))})
     rep.extra["c2s_calls_classified"] = len(calls)
